@@ -218,7 +218,7 @@ func goSide(w *lib.Writer, c mathIn, good bool, outs []float64, errs string) {
 	id := w.NextID()
 	w.Add(lib.Case{Input: c, Class: c.Fn, Nontrivial: true, Observed: map[string]any{"results": fmt.Sprint(outs), "error": errs},
 		Coq: "CGoSide false"})
-	w.GoFail(id, c.Fn+": result differs from Go's math on the same arguments in the documented order")
+	w.GoFail(id, c.Fn+": result differs from the reference on the same arguments in the documented order (Go's math bit for bit, or the function's identity where Go's math is itself off: see agrees1)")
 }
 
 func runRandom(w *lib.Writer, c mathIn, xs []float64, largs []lua.LValue, cargs []string) {
